@@ -66,7 +66,7 @@ Proof.
     apply (origin_match_spec os o1 Hos) in E2. rewrite E2 in E1. discriminate E1.
 Qed.
 
-(* an admitted origin has the length of some listed origin *)
+(* an accepted origin has the length of some listed origin *)
 Corollary origin_match_length : forall os o, Forall is_lower os ->
   matches_origins os o = true -> exists s, In s os /\ List.length s = List.length o.
 Proof.
@@ -81,7 +81,7 @@ Definition l (s : string) : list ascii := list_ascii_of_string s.
 Example ex_allow_is_lower : Forall is_lower [l "http://a.com"].
 Proof. constructor; [vm_compute; reflexivity | constructor]. Qed.
 
-Example ex_upper_admitted : matches_origins [l "http://a.com"] (l "HTTP://A.COM") = true.
+Example ex_upper_accepted : matches_origins [l "http://a.com"] (l "HTTP://A.COM") = true.
 Proof. vm_compute. reflexivity. Qed.
 
 Example ex_prefix_rejected : matches_origins [l "http://a.com"] (l "http://a.co") = false.
